@@ -11,6 +11,7 @@ import time
 import traceback
 from pathlib import Path
 
+VERIF_DIR = __import__("pathlib").Path(__file__).resolve().parents[2]
 from .common import (VERIF, LEAN_DIR, ARTDRV, REPO, Issue, Coverage, load_known, known_match,
                      write_replay, jsonable)
 
@@ -78,6 +79,18 @@ def audit(prop: str, log: list[str]) -> dict:
     names = obligations_for(prop)
     res = {"obligations": len(names), "discharged": 0, "axioms": {}, "failed": [], "forbidden": []}
     res["forbidden"] = grep_forbidden()
+    # the inheritance structure the models and the translated code silently assume (tools/class_surface.py)
+    try:
+        import importlib.util
+        spec_ = importlib.util.spec_from_file_location("class_surface", str(VERIF_DIR / "tools" / "class_surface.py"))
+        cs = importlib.util.module_from_spec(spec_)
+        spec_.loader.exec_module(cs)
+        snap = json.loads(cs.SNAPSHOT.read_text())
+        for d in cs.diff(snap, cs.surface(REPO)):
+            res["failed"].append("class-surface: " + d)
+        log.append("class surface (which class overrides which inherited method) compared with lean/obligations/class_surface.json")
+    except Exception as e:      # noqa
+        res["failed"].append(f"class-surface: could not be computed ({e!r})")
     if not names:
         res["failed"].append("no obligations registered")
         return res
